@@ -60,7 +60,7 @@ static void gs_lengths(const struct gblock *b, uint8_t *ll, int *hlit, uint8_t *
 	int usedl[300], nl = 0, usedd[32], nd = 0;
 	uint8_t seenl[288] = { 0 }, seend[32] = { 0 };
 	for (int i = 0; i < b->nt; i++) {
-		int s = b->t[i].len ? 257 + gen_len_sym(b->t[i].len) : b->t[i].lit;
+		int s = b->t[i].len ? 257 + gen_tok_lsym(&b->t[i]) : b->t[i].lit;
 		if (!seenl[s]) { seenl[s] = 1; usedl[nl++] = s; }
 		if (b->t[i].len) {
 			int d = gen_dist_sym(b->t[i].dist);
@@ -173,7 +173,7 @@ static void tok_str(char *o, size_t n, const struct tok *t, int nt)
 	o[0] = 0;
 	for (int i = 0; i < nt; i++)
 		if (t[i].len)
-			snprintf(o + strlen(o), n - strlen(o), "M(%d,%d) ", t[i].len, t[i].dist);
+			snprintf(o + strlen(o), n - strlen(o), "M(%d%s,%d) ", t[i].len, t[i].len == 258 && t[i].lit ? "=284+31" : "", t[i].dist);
 		else
 			snprintf(o + strlen(o), n - strlen(o), "L%02x ", t[i].lit);
 }
@@ -344,6 +344,33 @@ static void gs_family_shapes(int (*mine)(uint64_t), uint64_t *idx, gs_cb cb, voi
 			if (gs_build(b, 3, desc) == 0)
 				cb(&GS, ctx);
 		}
+	/* length 258 written as symbol 284 with extra bits 31 (valid per RFC 1951 3.2.5, produced by no encoder): next to literals with
+	 * short codes (multi-symbol lookup entries), next to the 285 form, in a final block and in a block followed by another */
+	{
+		enum { X = 1, Y = 2 };
+		static const char pat[7][6] = { "abX", "aX", "abXX", "abbXa", "aXbaX", "abYX", "aXabY" };
+		for (int trailing = 0; trailing < 2; trailing++)
+			for (int kind = 0; kind < 3; kind++)
+				for (int pi = 0; pi < 7; pi++) {
+					uint64_t id = (*idx)++;
+					if (!mine(id))
+						continue;
+					struct gblock b[2];
+					memset(b, 0, sizeof b);
+					b[0].kind = kind == 0 ? 1 : 2;
+					b[0].ll_shape = kind == 2 ? 1 : 0;
+					b[0].d_shape = kind == 2 ? 1 : 0;
+					b[0].style = pi & 1;
+					for (const char *c = pat[pi]; *c; c++)
+						b[0].t[b[0].nt++] = *c == 'X' ? (struct tok){ 258, 1, 1 } : *c == 'Y' ? (struct tok){ 258, 0, 2 } : (struct tok){ 0, *c, 0 };
+					b[1].kind = 1;
+					char ts[96], desc[200];
+					tok_str(ts, sizeof ts, b[0].t, b[0].nt);
+					snprintf(desc, sizeof desc, "F3 %s[%s]%s", kind == 0 ? "fixed" : kind == 1 ? "dyn-balanced" : "dyn-deep15", ts, trailing ? " + fixed[]" : "");
+					if (gs_build(b, 1 + trailing, desc) == 0)
+						cb(&GS, ctx);
+				}
+	}
 	/* hand-made HCLEN=5 header: code-length code uses only symbols 0 and 8 */
 	{
 		uint64_t id = (*idx)++;
